@@ -7,6 +7,6 @@ CONSTANTS
   Deviations <- AllClasses
 INVARIANT TypeOK
 INVARIANT Confined
-INVARIANT DeviationsAreReal
+INVARIANT AllowedAreZones
 INVARIANT PPOneComponent
 CHECK_DEADLOCK FALSE
